@@ -42,7 +42,7 @@ def plan(tier, seed):
             {'signature': [0, 1, -1]}, {'p': 1, 'q': 0, 'r': 1}, {'p': 3, 'q': 0, 'r': 1}, {'named': '2DPGA'}]
     wrappers = [None, None, 'identity', 'wraps']
     H = []
-    nseq, nthr, steps = (64, 24, 40) if tier == 'quick' else (1500, 300, 50)
+    nseq, nthr, steps = (64, 24, 40) if tier == 'quick' else (6000, 1200, 50)
     for i in range(nseq):
         cfg = dict(rng.choice(base))
         opts = {}
@@ -65,7 +65,7 @@ def plan(tier, seed):
                   'threads': (2, 4, 8)[i % 3], 'p_yield': rng.choice((0.02, 0.05, 0.15))})
     # cold-start races: several threads use the same operator for the first time on a fresh algebra, with operands holding the
     # same blades in different key orders (the situation in which generated names collide), many short rounds
-    for i in range(16 if tier == 'quick' else 256):
+    for i in range(16 if tier == 'quick' else 1024):
         cfg = dict(rng.choice(base[:6]))
         w = ('wraps', 'identity', 'wraps', None)[i % 4]
         if w:
@@ -478,9 +478,9 @@ def run_race(h, ctx, ge):
         if ctx.out_of_time():
             return
         alg = gen.make_or_skip(ctx, cfg)
-    if alg is None:
-        return
-    alg = instrument(alg)
+        if alg is None:
+            continue
+        alg = instrument(alg)
         regs = regfuncs(alg)
         canon = list(alg.canon2bin.values())
         ks = gen.random_subset(rng, canon, 3, 2)
